@@ -15,3 +15,8 @@ open Neutrino.BM
 #print axioms C19_replay
 #print axioms C19_backlog_replay
 #print axioms C19_filter_tip_consistent
+#print axioms C19_tip_covers_emission
+#print axioms C19_tip_after_counterexample
+#print axioms C19_midbatch_subscriber
+#print axioms C19_midbatch_gap_counterexample
+#print axioms C19_source_facts
